@@ -25,8 +25,9 @@ def run(ctx):
   for n in g.live_nodes():
     s = n.ast
     if n.kind == 'stmt' and isinstance(s, ast.Expr) and isinstance(s.value, ast.Call) and isinstance(s.value.func, ast.Attribute) \
-        and isinstance(s.value.func.value, ast.Name):
-      d = def_of(facts[n.id], s.value.func.value.id) or ''
+        and isinstance(s.value.func.value, (ast.Name, ast.Call)):
+      rv = s.value.func.value
+      d = (def_of(facts[n.id], rv.id) or '') if isinstance(rv, ast.Name) else u(rv)
       if d.startswith('_OPERATIVE_CONFIG.setdefault('):
         merges.append((n, s.value, d))
     elif n.kind == 'stmt' and isinstance(s, (ast.Assign, ast.Delete)):
